@@ -2,6 +2,8 @@ package types
 
 import (
 	"fmt"
+
+	"github.com/ethereum/go-ethereum/common"
 )
 
 // NewGenesisState creates a new genesis state
@@ -21,11 +23,12 @@ func DefaultGenesisState() *GenesisState {
 
 // Validate performs basic genesis state validation returning an error upon any failure
 func (gs GenesisState) Validate() error {
-	seenErc20 := make(map[string]bool)
+	// keyed by the address, not by its spelling: the ERC20 index is keyed by common.Address
+	seenErc20 := make(map[common.Address]bool)
 	seenDenom := make(map[string]bool)
 
 	for _, b := range gs.TokenPairs {
-		if seenErc20[b.ERC20Address] {
+		if seenErc20[common.HexToAddress(b.ERC20Address)] {
 			return fmt.Errorf("token ERC20 contract duplicated on genesis '%s'", b.ERC20Address)
 		}
 		if len(b.Denoms) == 0 {
@@ -43,7 +46,7 @@ func (gs GenesisState) Validate() error {
 			return err
 		}
 
-		seenErc20[b.ERC20Address] = true
+		seenErc20[common.HexToAddress(b.ERC20Address)] = true
 	}
 
 	return gs.Params.Validate()
